@@ -241,8 +241,12 @@ class MEDDLY::terminal {
                         float f;
                     } x;
                     x.f = t_real;
-                    // strip the lsb in fraction, and add sign bit
-                    return (x.h>>1) | msb();
+                    // strip the lsb in fraction
+                    x.h >>= 1;
+                    // anything that became +-0 must use handle 0
+                    if (0 == (x.h & intMax())) return 0;
+                    // add sign bit
+                    return x.h | msb();
                 } else {
                     MEDDLY_DCASSERT(sizeof(node_handle) == sizeof(double));
                     union {
@@ -250,8 +254,12 @@ class MEDDLY::terminal {
                         double d;
                     } x;
                     x.d = t_real;
-                    // strip the lsb in fraction, and add sign bit
-                    return (x.h>>1) | msb();
+                    // strip the lsb in fraction
+                    x.h >>= 1;
+                    // anything that became +-0 must use handle 0
+                    if (0 == (x.h & intMax())) return 0;
+                    // add sign bit
+                    return x.h | msb();
                 }
             } else {
                 return 0;
